@@ -266,9 +266,24 @@ Theorem canonical_save_final : forall fd tmp target ds s,
 Proof. exact canonical_save_final_lemma. Qed.
 Print Assumptions canonical_save_final.
 
+(* ... whatever an earlier, killed save left behind under the temporary name (the recogniser demands
+   that the temporary starts empty: O_TRUNC or O_EXCL) *)
+Theorem save_final_ignores_leftovers : forall fd tmp target ds s,
+  tmp <> target ->
+  content (run s (FOpen fd tmp true true :: map (FWrite fd) ds ++ [FMeta fd; FMeta fd; FClose fd; FRename tmp target])%list) target
+  = Some (String.concat "" ds).
+Proof. exact save_final_ignores_leftovers_lemma. Qed.
+Print Assumptions save_final_ignores_leftovers.
+
+(* a temporary opened for writing WITHOUT truncation is outside the protocol class *)
+Example untruncated_temporary_rejected :
+  protocol_ok "d/settings.json" false {| files := [("d/settings.json", "OLD"); ("d/settings.json.tmp", "LEFTOVER-LEFTOVER")]; fds := [] |}
+    [FOpen 3 "d/settings.json.tmp" true false; FWrite 3 "NEW"; FClose 3; FRename "d/settings.json.tmp" "d/settings.json"] = false.
+Proof. vm_compute. reflexivity. Qed.
+
 Example canonical_protocol_ok :
   protocol_ok "d/settings.json" false {| files := [("d/settings.json", "OLD")]; fds := [] |}
-    [FMkdir "d"; FOpen 3 "d/settings.json.tmp1" true false; FWrite 3 "NE"; FWrite 3 "W"; FMeta 3; FMeta 3; FClose 3;
+    [FMkdir "d"; FOpen 3 "d/settings.json.tmp1" true true; FWrite 3 "NE"; FWrite 3 "W"; FMeta 3; FMeta 3; FClose 3;
      FRename "d/settings.json.tmp1" "d/settings.json"] = true.
 Proof. vm_compute. reflexivity. Qed.
 
